@@ -104,8 +104,6 @@ def c03(ap, obs, sc):
         if booked != prim and not (alts and booked == alts):
             f = {"what": "the booked resources are neither exactly the allocated team nor exactly the alternative",
                  "task": t, "booked": sorted(booked), "allocated": sorted(prim), "alternative": sorted(alts)}
-            if len(prim) > 1 and has_task_limit(ap, p) and booked < prim:
-                f["known_signature"] = "K02 team allocation with a task-level limit books only part of the team"
             bad.append(f)
             continue
         # team: identical instants
@@ -445,6 +443,86 @@ def c08(ap, obs, sc):
                                 "task": t, "resource": r, "task_end": st["end"], "deadline": dl, "idle_slot_start": ts})
                     break
                 s += 1
+    return bad
+
+
+def c08_team(ap, obs, sc):
+    """C08 for teams and limits, as the theorem C08_asap_teams_and_limits states it: a slot between the bound and
+    the end that a forward task did not take must have, in the final ledger, a member that does not work then, a
+    member booked for another task, or a limit (of the member, its groups, the task or its containers) without room
+    for the whole team in that period.  Whole-slot projects only (every ledger entry is a full slot)."""
+    bad = []
+    if ap.get("alap") or not aligned(ap):
+        return bad
+    G = obs["G"]
+    led = ledger_of(sc)
+    if any(abs(x - G) > 1e-3 for sl in led.values() for e in sl.values() for _, x in e if x > TINY):
+        return bad                                      # sub-slot projects: not claimed here
+    ridx, tidx = res_index(ap), task_index(ap)
+    rpaths = {n["id"]: p for p, n in ridx.items() if "kids" not in n}
+    rid_of = {fid(p): n["id"] for p, n in ridx.items() if "kids" not in n}
+    edges = all_edges(ap)
+
+    def period(kind, slot):
+        day = (obs["start"] + slot * G) // 86400
+        return day if kind == "dailymax" else (day + 3) // 7
+
+    # the limits with their counting rule
+    lims = []          # (kind, slots allowed, counts(task path, resource id))
+    for p, n in ridx.items():
+        for kind in ("dailymax", "weeklymax"):
+            if n.get(kind) is not None:
+                members = {x["id"] for x in ([n] if "kids" not in n else [m for _, m in walk(n["kids"]) if "kids" not in m])}
+                lims.append((kind, int((n[kind] / 60.0) / (G / 3600.0)), lambda tp, rid, members=members: rid in members))
+    for p, n in tidx.items():
+        for kind in ("dailymax", "weeklymax"):
+            if n.get(kind) is not None:
+                only = set(n["limit_res"]) if n.get("limit_res") else None
+                lims.append((kind, int((n[kind] / 60.0) / (G / 3600.0)),
+                             lambda tp, rid, p=p, only=only: tp[:len(p)] == p and (only is None or rid in only)))
+    tpath = {fid(p): p for p in tidx}
+    events = [(tpath[t], rid_of[r], s) for r, sl in led.items() if r in rid_of for s, e in sl.items() for t, x in e if x > TINY and t in tpath]
+    for p, n in tidx.items():
+        if "kids" in n or n.get("effort") is None or n.get("alt") or n.get("sched") or n.get("end") is not None:
+            continue
+        team = n.get("alloc", [])
+        if not team or any(x not in rpaths for x in team) or len(set(team)) != len(team):
+            continue
+        mine = [l for l in lims if any(l[2](p, x) for x in team)]
+        if len(team) == 1 and not mine:
+            continue                                    # the single unlimited resource is c08's case
+        t = fid(p)
+        st = sc["tasks"].get(t)
+        if not st or not st["sched"] or st["start"] is None or st["end"] is None:
+            continue
+        b = dep_bound(ap, p, sc)
+        if b is None or any(e[3] for e in edges[p]) or (b - obs["start"]) % G:
+            continue
+        for s in range(max(slot_of(obs, b), 0), slot_of(obs, st["end"] - 1) + 1):
+            if all(any(tt == t and x > TINY for tt, x in led.get(fid(rpaths[x_]), {}).get(s, [])) for x_ in team):
+                continue
+            ts = obs["start"] + s * G
+            why = None
+            for x_ in team:
+                rp = rpaths[x_]
+                if not working(ap, ridx[rp], ts):
+                    why = "off"
+                    break
+                if any(tt != t and xx > TINY for tt, xx in led.get(fid(rp), {}).get(s, [])):
+                    why = "other"
+                    break
+            if why is None:
+                for kind, value, counts in mine:
+                    k = period(kind, s)
+                    used = sum(1 for (tp, rid, s2) in events if counts(tp, rid) and period(kind, s2) == k)
+                    need = sum(1 for x_ in team if counts(p, x_))
+                    if used + need > value:
+                        why = "limit"
+                        break
+            if why is None:
+                bad.append({"what": "a team / limited task skipped a slot although every member works, none is booked for another task and every limit has room for the whole team",
+                            "task": t, "team": team, "bound": b, "idle_slot_start": ts, "task_start": st["start"], "task_end": st["end"]})
+                break
     return bad
 
 
